@@ -2,4 +2,5 @@ package sim
 
 // scenario parts of the other families (defined in their own files as they are built)
 type AdmScen struct{}
+
 // touch
